@@ -103,3 +103,95 @@ Theorem C10_tcp_attach_complete :
   exists b, In (ta_port a, b) (st_tcp (attach_impl cl)).
 Proof. exact tcp_attach_complete. Qed.
 Print Assumptions C10_tcp_attach_complete.
+
+(* ---------------------------------------------------------------------------------------------
+   Extension: listener protocol, TLS passthrough, API versions, hostname intersection.
+   `attach_impl_x` / `attach_versions` (Model/Gateway.v) are the converter with what a listener in
+   tls.mode Passthrough adds and with one sync per enabled API version over a shared state; the
+   correspondence runs them.  The theorems above are about `attach_impl`; `admitted` now includes
+   the listener protocol as far as the project implements it (a TCPRoute is not attached through
+   an HTTP, HTTPS, TLS or UDP listener -- after the fix of /repo 236a4c8). *)
+
+(* Without a passthrough listener the extended driver is the plain one: same host/path rules,
+   backends and TCP services, no ssl-passthrough host, no HTTPPassthroughBackend. *)
+Theorem C10_extended_driver_conservative :
+  forall cl, no_passthrough cl ->
+  x_core (attach_impl_x cl) = attach_impl cl /\ x_pass (attach_impl_x cl) = [] /\ x_hpb (attach_impl_x cl) = [].
+Proof. exact attach_x_conservative. Qed.
+Print Assumptions C10_extended_driver_conservative.
+
+(* ... so soundness and completeness carry over to it. *)
+Theorem C10x_attach_sound :
+  forall cl k b,
+  wf_objects cl -> no_passthrough cl -> In (k, b) (st_paths (x_core (attach_impl_x cl))) ->
+  exists a before after,
+    combinations cl = before ++ a :: after /\
+    admitted cl a /\ at_key a = k /\ at_owner a = b /\
+    (forall a', In a' before -> admitted cl a' -> at_key a' <> k).
+Proof. exact attach_x_sound. Qed.
+Print Assumptions C10x_attach_sound.
+
+Theorem C10x_attach_complete :
+  forall cl a,
+  wf_objects cl -> no_passthrough cl -> In a (combinations cl) -> admitted cl a ->
+  exists b, In (at_key a, b) (st_paths (x_core (attach_impl_x cl))).
+Proof. exact attach_x_complete. Qed.
+Print Assumptions C10x_attach_complete.
+
+(* PARTIAL: for any object sets, any listener TLS mode and any succession of API versions, every
+   host/path rule is served by a backend that exists.  Gap: with passthrough listeners (root path
+   moved to HTTPPassthroughBackend, matches dropped, duplicate links) and with several versions,
+   admission of the rules (soundness) and completeness are not proved; they are covered by the
+   correspondence and the oracle only. *)
+Theorem C10x_paths_backed_partial :
+  forall cls k b,
+  In (k, b) (st_paths (x_core (attach_versions cls))) ->
+  has_key b (st_backs (x_core (attach_versions cls))) = true.
+Proof. exact attach_versions_backed_partial. Qed.
+Print Assumptions C10x_paths_backed_partial.
+
+(* Against the Gateway API text alone (`admitted_by_spec`: the project's relation plus listener
+   protocol HTTP/HTTPS for an HTTPRoute and the hostname taken from the intersection
+   `spec_hostnames` of listener and route hostnames, wildcards on either side).
+   The full statement is false of the converter: *)
+Theorem C10_attach_sound_spec_refuted :
+  exists cl k b,
+    wf_objects cl /\ no_passthrough cl /\ In (k, b) (st_paths (attach_impl cl)) /\
+    forall a, In a (combinations cl) -> ~ admitted_by_spec cl a.
+Proof. exact attach_sound_spec_refuted. Qed.
+Print Assumptions C10_attach_sound_spec_refuted.
+
+(* (an HTTPRoute attached through a TCP listener; and the hostname override is not the intersection) *)
+Theorem C10_hostname_intersection_refuted :
+  exists l r, spec_hostnames l r = [] /\ filter_hostnames l r = ["gw.example"].
+Proof. exact hostnames_spec_refuted. Qed.
+Print Assumptions C10_hostname_intersection_refuted.
+
+(* The hostnames agree with the intersection when the listener has no hostname (or "*") or the
+   route has none. *)
+Theorem C10_hostname_intersection_under_H :
+  forall l r,
+  (l_hostname l = None \/ l_hostname l = Some "" \/ l_hostname l = Some "*" \/ rt_hostnames r = []) ->
+  filter_hostnames l r = spec_hostnames l r.
+Proof. exact hostnames_spec_under_H. Qed.
+Print Assumptions C10_hostname_intersection_under_H.
+
+(* The strongest true variant: inside the documented conformance (every admitting listener speaks
+   a protocol fit for the route and its hostname override coincides with the intersection) the
+   converter is sound and complete for the Gateway API relation too. *)
+Theorem C10_attach_sound_spec_under_H :
+  forall cl k b,
+  wf_objects cl -> within_documented_conformance cl -> In (k, b) (st_paths (attach_impl cl)) ->
+  exists a before after,
+    combinations cl = before ++ a :: after /\
+    admitted_by_spec cl a /\ at_key a = k /\ at_owner a = b /\
+    (forall a', In a' before -> admitted_by_spec cl a' -> at_key a' <> k).
+Proof. exact attach_sound_spec_under_H. Qed.
+Print Assumptions C10_attach_sound_spec_under_H.
+
+Theorem C10_attach_complete_spec :
+  forall cl a,
+  wf_objects cl -> In a (combinations cl) -> admitted_by_spec cl a ->
+  exists b, In (at_key a, b) (st_paths (attach_impl cl)).
+Proof. exact attach_complete_spec_under_H. Qed.
+Print Assumptions C10_attach_complete_spec.
